@@ -21,6 +21,18 @@ def new_report(prop, tier, tech):
     return Report(prop, tier, level_for(prop), tech)
 
 
+def run_kani_both(rep, prop, harness_timeout=1500):
+    """one cargo-kani invocation for the per-form groups and the hand-written harnesses of this property"""
+    names = step_check.harness_names(prop, rep.tier) + custom_check.harness_names(prop)
+    log = os.path.join(kani_run.CACHE, "logs", "%s-kani.log" % prop)
+    r = kani_run.run_harnesses(names, harness_timeout=harness_timeout, log_path=log)
+    rep.cmds.append("(cd kani/crate && " + r["cmd"] + ")")
+    rep.logs.append(log)
+    step_check.run_step(rep, prop, r=r)
+    custom_check.run_custom(rep, prop, r=r)
+    return r
+
+
 def check_step_only(prop, tier):
     rep = new_report(prop, tier, STEP_TECH)
     step_check.run_step(rep, prop)
@@ -29,8 +41,7 @@ def check_step_only(prop, tier):
 
 def check_step_plus_custom(prop, tier):
     rep = new_report(prop, tier, STEP_TECH + " + composition lemmas (call;return / entry;RTE) as Kani harnesses over the real functions")
-    step_check.run_step(rep, prop)
-    custom_check.run_custom(rep, prop)
+    run_kani_both(rep, prop)
     if prop in ("C05", "C06"):
         rep.assumptions.append("arbitrary nesting depth follows from the one-level lemma and the frame clauses (mem_frame) by induction on depth; the induction step is argued in DESIGN.md 5.5, not mechanised")
     return rep.finish()
@@ -38,8 +49,7 @@ def check_step_plus_custom(prop, tier):
 
 def check_c07(prop, tier):
     rep = new_report(prop, tier, "contract on the real Cpu::fetch+Cpu::exec against recording stubs for every dispatch target (Kani/CBMC, all first words x symbolic extension words) + per-form contracts of the STC entries")
-    step_check.run_step(rep, prop)
-    custom_check.run_custom(rep, prop)
+    run_kani_both(rep, prop)
     rep.assumptions.append("total instruction length = words consumed by the dispatcher (proved here) + operand words consumed by the entry (the `pc` clause of each form's contract under C01-C06)")
     rep.assumptions.append("second-level dispatch inside the entries (mov_b, mov_w, mov_l, add_*, sub_*, bcc, jmp, jsr, bit ops on memory) is exercised by the per-form contracts, which call those entries")
     return rep.finish()
@@ -62,7 +72,6 @@ def scan_call_sites(rep):
         src = open(f).read()
         i = src.find("#[cfg(test)]\nmod tests")
         src = src if i < 0 else src[:i]
-        src = src.split("// verification hooks")[0]
         texts[os.path.relpath(f, REPO)] = src
     def sites(pat):
         out = []
@@ -134,8 +143,7 @@ def check_custom_only(prop, tier):
 
 def check_c15(prop, tier):
     rep = new_report(prop, tier, "automatic panic/overflow/bounds/unwrap obligations generated by Kani inside /repo/src over every contract harness (full symbolic domains), Verus overflow obligations of the extracted units, plus err-on-unmapped clauses")
-    step_check.run_step(rep, prop)
-    custom_check.run_custom(rep, prop)
+    run_kani_both(rep, prop)
     for unit, fns in (("bus", "Bus::read, Bus::write, ioport helpers"), ("irq", "request_interrupt, try_interrupt"), ("run", "Cpu::run")):
         custom_check.run_verus_unit(rep, prop, unit, fns)
     rep.assumptions.append("overflow/shift checks are the overflow-checking build configuration; panic/bounds/unwrap/division checks hold for both configurations")
